@@ -255,6 +255,12 @@ func main() {
 			}
 			cfg.Portfolio = append(cfg.Portfolio, interp.SolverSpec{Name: p[0], IntEnc: p[1] == "int", TimeoutMs: h.optInt(*tier, "portfolio_timeout_ms", 30000)})
 		}
+		if ov := h.opt(*tier, "overrides", ""); ov != "" {
+			cfg.Overrides = map[string]bool{}
+			for _, name := range strings.Split(ov, ",") {
+				cfg.Overrides[prog.Main.Pkg.Path()+"."+name] = true
+			}
+		}
 		if sm := h.opt(*tier, "summaries", ""); sm != "" {
 			cfg.Summaries = map[string]string{}
 			for _, kv := range strings.Split(sm, ",") {
